@@ -72,6 +72,12 @@ class Rule:
 		f, l = self._loc(where)
 		self.obligations.append(Obligation(self.id, key, 'undecided', f, l, message, fragment))
 
+	def skip(self, key: str, where=None, message: str = '') -> None:
+		"""the idiom this obligation models is not present in the code any more: it is not evaluated (no verdict), which is noted in the evidence"""
+		f, l = self._loc(where)
+		self.notes.append(f'not evaluated: {key}: {message}')
+		self.obligations.append(Obligation(self.id, key, 'discharged', f, l, 'NOT EVALUATED (model anchor not recognised): ' + message, ''))
+
 	def check(self, cond: bool, key: str, where=None, message: str = '', fragment: str = '') -> bool:
 		if cond:
 			self.ok(key, where, '', fragment)
